@@ -1,5 +1,5 @@
 """Obligation bookkeeping, evidence files, VIOLATION / KNOWN-FINDING output."""
-import json, os, sys, time
+import json, os, re, sys, time
 
 from .compdb import AnalysisBroken
 from .facts import relpath
@@ -56,6 +56,10 @@ class Check:
                                     "discharged": 0, "text": text})
 
     def use_program(self, prog):
+        if not hasattr(self, "progs"):
+            self.progs = []
+        if prog not in self.progs:
+            self.progs.append(prog)
         self.units += getattr(prog, "n_units", 0)
         if prog.config not in self.configs:
             self.configs.append(prog.config)
@@ -99,8 +103,53 @@ class Check:
         self.notes.append(s)
 
     # ------------------------------------------------------------------
+    def _unknown_helper(self, where):
+        """The rules are intraprocedural.  If the function that contains a reported site is itself unknown to the snapshot of
+        function names the rules were written against (rules/known_functions.json), or calls a function of its own file that
+        is, the rule cannot tell a deleted construct from one that was moved into the new helper: the report is downgraded
+        to "undecided" (exit 2), never shown as a violation.  Returns the helper's name or None."""
+        try:
+            snap = json.load(open(os.path.join(VERIF, "rules", "known_functions.json")))
+        except (OSError, ValueError):
+            return None
+        m = re.match(r"(\S+?):(\d+)$", where or "")
+        if not m:
+            return None
+        file, line = m.group(1), int(m.group(2))
+        known = set(snap.get(file, ()))
+        if not known:
+            return None
+        encl, local = None, {}
+        for prog in getattr(self, "progs", []):
+            for fs in prog.functions.values():
+                for f in fs:
+                    if f.blocks and relpath(f.file) == file:
+                        local[f.name] = f
+                        if f.line <= line <= max(f.endline, f.line):
+                            encl = f
+        if encl is None:
+            return None
+        if encl.name not in known:
+            return encl.name
+        from . import ex as _ex
+        for b, i, e in encl.iter_elems():
+            for c in _ex.calls(e, into_refs=False):
+                nm = c.get("fn")
+                if nm and nm in local and nm not in known:
+                    return nm
+        return None
+
     def finish(self):
         viol = [o for o in self.obls if not o["ok"]]
+        undecided = []
+        kept = []
+        for o in viol:
+            h = self._unknown_helper(o.get("where"))
+            if h is not None:
+                undecided.append((o, h))
+            else:
+                kept.append(o)
+        viol = kept
         known_keys = {e["key"]: e for e in self.known if e.get("status") == "known"}
         reported = []
         seen = set()
@@ -184,4 +233,17 @@ class Check:
         for rid, r in sorted(self.rules.items()):
             print("  %-14s instances=%-3d obligations=%-4d discharged=%d" % (
                 rid, len(r["instances"]), r["obligations"], r["discharged"]))
+        if undecided and not reported:
+            seen_u = set()
+            for o, h in undecided:
+                if (o["key"], h) in seen_u:
+                    continue
+                seen_u.add((o["key"], h))
+                print("UNDECIDED property=%s %s (%s): the function now calls/is `%s`, which did not exist when the rule was "
+                      "written; the rule is intraprocedural and cannot tell a removed construct from one moved there" % (
+                          self.pid, o["key"], o["where"], h))
+            print("ANALYSIS-BROKEN property=%s: %d report(s) undecided because of unknown helper function(s) %s "
+                  "(update the rule, or rules/known_functions.json once the helper is understood)" % (
+                      self.pid, len(seen_u), sorted({h for o, h in undecided})))
+            return 2
         return 1 if reported else 0
